@@ -8,7 +8,8 @@
      Device/DLCD.v    dlcd over the 128-byte DDRAM of the mock LiquidCrystal / LiquidCrystal_I2C
                       (row offsets, setCursor row clamp of either library, address wrap), the
                       three helper templates of LCD_HELPER_SNIPPET and the per-node emitter code:
-                      dinit, dstep (None = the transpiler rejects the call), dstep', drun,
+                      dinit, dstep (None = the transpiler rejects the call; texts enter as the
+                      UTF-8 bytes of the string literal), dstep', drun,
                       cells (the visible matrix), d_log (event log, newest first), dfilled, dwidth
      Device/LCDRefine.v  shows h d: same declaration, host buffer well-shaped and
                       cells d = host buffer (U+2588 identified with 0xFF);  agrees = shows +
@@ -128,6 +129,21 @@ Theorem C17_geometry_refuted :
     end.
 Proof. exact top_geometry_refuted. Qed.
 Print Assumptions C17_geometry_refuted.
+
+(* non-ASCII text: the firmware counts, cuts and prints the UTF-8 bytes of the literal, the
+   host code points - alignment and truncation differ (F-C17-non-ascii); hence [ascii] above *)
+Theorem C17_non_ascii_refuted :
+  exists g col row text align,
+    fitsb g = true /\ row_in g row = true /\ col_in g col = true /\ align_ok align = true /\ asciib text = false /\
+    match hinit g with
+    | Some h0 =>
+        let op := OWrite col row text true align in
+        snd (hstep h0 op) = HOk /\ dstep (dinit g) op <> None /\
+        cells (dstep' (dinit g) op) <> map (map canon) (h_buf (fst (hstep h0 op)))
+    | None => False
+    end.
+Proof. exact top_non_ascii_refuted. Qed.
+Print Assumptions C17_non_ascii_refuted.
 
 (* same alignment and truncation: the host's column and the firmware's offset coincide,
    and the (truncated) text ends inside the display *)
